@@ -20,6 +20,7 @@ pub fn resolve(name: &str) -> Option<(&'static str, iso::RunCase)> {
         "pixel" => ("pixel", shorts::run_pixel),
         "json" => ("json", shorts::run_json),
         "strings" => ("strings", shorts::run_strings),
+        "selftest" => ("selftest", selftest_run),
         _ => return None,
     })
 }
@@ -74,6 +75,7 @@ pub fn family_size(name: &str, thorough: bool) -> u64 {
         "pixel" => shorts::pixel_size(),
         "json" => shorts::json_uni(thorough).size(),
         "strings" => shorts::strings(thorough).size(),
+        "selftest" => 600,
         _ => 0,
     }
 }
@@ -88,4 +90,25 @@ pub fn run_in_process(name: &str, thorough: bool, only: Option<String>, lo: u64,
         run(&mut cx, idx);
     }
     cx
+}
+
+/// Self-test of the isolation machinery (only with VERIF_C05_FAMILIES=selftest): subjects that
+/// return, panic, spin forever and request a giant allocation. The run must report exactly one
+/// panic class, one hang class and one abort class.
+fn selftest_run(cx: &mut Ctx, idx: u64) {
+    let what = || format!("selftest {idx}");
+    let b = idx.to_le_bytes();
+    cx.exec("selftest", "-", "-", &what, &b, || match idx {
+        100 => panic!("selftest panic"),
+        300 => loop {
+            std::hint::black_box(0);
+        },
+        500 => {
+            let v: Vec<u8> = vec![1u8; 3 << 30];
+            std::hint::black_box(&v);
+            acc::Out::Ok
+        }
+        _ => acc::Out::Ok,
+    });
+    cx.exec("selftest-after", "-", "-", &what, &b, || acc::Out::Ok);
 }
